@@ -28,11 +28,11 @@ logging.disable(logging.CRITICAL)
 LEAN_TARGETS = ["NfcVerif.Props.C07", "drv_c07"]
 
 THEOREMS = ["NfcVerif.C07." + t for t in (
-    "pdu_decode_total", "dep_decode_total", "dep_decode_counterexample", "dep_decode_asFound_is_c04",
+    "pdu_decode_total", "dep_decode_total", "dep_decode_counterexample", "dep_decode_is_c04", "dep_decode_total_c04",
     "dep_rtox_total", "dep_rtox_counterexample", "dep_target_rtox_total", "dep_target_rtox_counterexample",
     "dep_after_deselect_total", "dep_after_deselect_counterexample",
-    "pax_total", "pax_counterexample", "t3emu_total_partial", "t3emu_counterexample",
-    "dispatch_total", "linkloop_never_waits", "linkloop_never_waits_counterexample", "second_cc_ignored",
+    "pax_total", "pax_counterexample", "t3emu_total", "t3emu_counterexample",
+    "dispatch_total", "peer_octets_dispatch_total", "linkloop_never_waits", "linkloop_never_waits_counterexample", "second_cc_ignored",
     "peer_bytes_flow", "peer_bytes_flow_counterexample", "flow_contains", "connect_returns_normally",
     "card_loop_contains", "card_loop_counterexample")]
 
@@ -956,6 +956,9 @@ def run(ck):
     st, _ = P.dep_target("212F", ATQ, bytes([0xD4, 6, 0, 0, 0]), [fr("212F", bytes([0xD4, 8])), fr("212F", bytes([0xD4, 8]))], payloads=[b"\x01"])
     cx.V["desel"] = not any(r == "exc AttributeError" for _, r in st)
     ck.notes.append("repairs present in the tree under test: " + ", ".join("%s=%d" % kv for kv in sorted(cx.V.items())))
+    if not all(cx.V.values()):
+        ck.notes.append("REGRESSION: repairs missing in the tree: %s - the theorems are about the repaired code; the ties use the as-found "
+                        "variant for these and the oracle reports the failing octets" % ", ".join(k for k, v in sorted(cx.V.items()) if not v))
     try:
         part_dep_decode(cx)
         part_dep_protocol(cx)
